@@ -34,6 +34,7 @@ _ch_jobs, _ch_run = chharness.make('harness.ch_c11', CONDS, {'quick': 240, 'thor
 FA_POOL = ['a,b', '', 'a-c', 'b']      # quick tier: the first three
 FLAGS = [(ex, sub, order, noise, tr) for ex in ('False', 'fa', 'fa;fc') for sub in ('False', 'fa->fb', 'fb<->fa', 'fa->fb;fb<->fa', 'fb<->fa;fa->fb') for order in (1, 2) for noise in ('True', 'False') for tr in ('none', 'minimal')]
 COLS = ['fa', 'fb', 'fc', 'num', 'label']
+NUM_POOL = ['4', '', '2']      # numeric cells: a value, a missing (empty) cell, a value equal to another row's
 FC = ['b', 'a,c', '']      # a second multi-value column whose vocabulary overlaps with fa's
 
 
@@ -93,6 +94,16 @@ def check_pipeline(D, rows, flags):
             return probs
     names = list(D.columns)
     fa, fb = [r[0] for r in rows], [r[1] for r in rows]
+    if trf != 'none':
+        # row alignment of the transformed columns: rows with the same numeric cell get the same transformed value
+        num = [r[COLS.index('num')] for r in rows]
+        tcols = [c for c in names[len(COLS):] if c.startswith('num') and ' AND ' not in c]
+        for c in tcols:
+            v = D[c].tolist()
+            bad = [(i, j) for i in range(n) for j in range(i + 1, n) if num[i] == num[j] and str(v[i]) != str(v[j])]
+            if bad:
+                probs.append(f'transformed column {c!r} gives rows {bad[0]} (same numeric cell {num[bad[0][0]]!r}) different values {v[bad[0][0]]!r}, {v[bad[0][1]]!r}: not row-aligned')
+                break
     mv = [c for c in names if c.startswith('MULTIEX-') and ' AND ' not in c]
     if ex != 'False':
         expm = {}
@@ -163,13 +174,19 @@ def run_pipeline(job):
             ctx.assume(v >= 0, v < npool)
         st['flags'] = z3.Int('flags')
         ctx.assume(st['flags'] >= 0, st['flags'] < len(FLAGS))
+        st['num'] = [z3.Int(f'num{i}') for i in range(1)]
+        for v in st['num']:
+            ctx.assume(v >= 0, v < len(NUM_POOL))
         for k, v in job['pins'].items():
             ctx.assume(z3.Int(k) == v)
 
     def body(ctx, out):
         fi = int(SInt(st['flags'], 0, len(FLAGS) - 1))
         cells = [FA_POOL[int(SInt(v, 0, len(FA_POOL) - 1))] for v in st['a']]
-        rows = [[cells[0], 'x', FC[0], '1', '0'], [cells[1], 'y', FC[1], '2', '1'], ['b', 'x', FC[2], '4', '0']]
+        if FLAGS[fi][4] == 'none':
+            ctx.assume(st['num'][0] == 0)      # the numeric cells only matter to the transformers
+        nums = [NUM_POOL[int(SInt(v, 0, len(NUM_POOL) - 1))] for v in st['num']]
+        rows = [[cells[0], 'x', FC[0], '1', '0'], [cells[1], 'y', FC[1], '2', '1'], ['b', 'x', FC[2], nums[0], '0']]
         w = {'cond': 'pipeline', 'fn': 'pipeline', 'rows': rows, 'flags': list(FLAGS[fi])}
         try:
             probs = check_pipeline(drive_pipeline(rows, FLAGS[fi]), rows, FLAGS[fi])
